@@ -313,9 +313,35 @@ func nthNode(root *gtree.Node, k int, items []wproto.Item) *gtree.Node {
 }
 
 func handleReq(rq wproto.Req) (rp wproto.Rep) {
+	if len(rq.Par) > 0 {
+		// several calls at the same time, one goroutine each (they share what a process shares: the extension slice,
+		// the WithMassive option value, the package state of gtree)
+		rp.Class = "par"
+		rp.Sub = make([]wproto.Rep, len(rq.Par))
+		// Mkdir with dry run prints its report to the colour package's process-wide writer (stdout, here the protocol
+		// channel): one locked sink for the calls that run at the same time (those reports are not compared)
+		color.Output = &faultWriter{buf: &bytes.Buffer{}}
+		var wg sync.WaitGroup
+		for i := range rq.Par {
+			wg.Add(1)
+			go func(i int) {
+				defer wg.Done()
+				rp.Sub[i] = handleOne(rq.Par[i], false)
+			}(i)
+		}
+		wg.Wait()
+		return rp
+	}
+	return handleOne(rq, true)
+}
+
+// handleOne serves one request; alone tells whether it is the only one running (process-wide settings allowed)
+func handleOne(rq wproto.Req, alone bool) (rp wproto.Rep) {
 	var buf bytes.Buffer
 	fw := &faultWriter{buf: &buf, fault: rq.WFault, yield: rq.Yield, e: wrapErr(errWriter, rq.ErrWrap)}
-	color.Output = fw
+	if alone {
+		color.Output = fw
+	}
 	opts := reqOpts(rq)
 	if rq.Procs > 0 {
 		defer runtime.GOMAXPROCS(runtime.GOMAXPROCS(rq.Procs))
